@@ -295,13 +295,22 @@ func (c19) Execute(env *kernel.Env, raw json.RawMessage, ch *kernel.Choices) *ke
 		byID[d.ID] = d.Content
 	}
 	mAny, mAll := model(p.Stream, true), model(p.Stream, false)
-	base := generator.WriteDeclarations(toReal(p.Stream))
+	supplied := toReal(p.Stream)
+	base := generator.WriteDeclarations(supplied)
 	out.Steps++
 	if base != mAny && base != mAll {
 		return viol("assembly_differs_from_set_model", fmt.Sprintf("undisturbed stream %s\nreal output:  %q\nmodel output: %q", ids(p.Stream), base, mAny))
 	}
 	if mAny != mAll {
 		out.Probe("id_with_both_priorities")
+	}
+	// history of two calls: assembling the very same list again (the
+	// assembler may reorder the caller's slice, it must not lose or replace
+	// declarations in it) gives the same text
+	again := generator.WriteDeclarations(supplied)
+	out.Steps++
+	if again != base {
+		return viol("second_assembly_of_same_list_differs", fmt.Sprintf("supplied %s\nfirst call:  %q\nsecond call on the same slice: %q", ids(p.Stream), base, again))
 	}
 	delivered := p.Stream
 	for _, f := range p.Faults {
